@@ -565,8 +565,72 @@ static int run(vh::Rng& r) {
 }
 }  // namespace fanout
 
+
+// ------------------------------------------------------------------ scripted: close() right after a successful try_send()
+// One sender, one receiver, one vCPU, capacity 0 or small. The receiver is blocked in recv(); the sender's try_send()
+// returns true (the value is in the slot / buffer) and the channel is closed before the receiver runs again. A value
+// reported as sent has to be delivered: the receiver gets it, and only its next recv() reports the closed channel.
+namespace tsclose {
+struct Ctl { photon::channel<uint64_t>* ch; bool timed; std::atomic<int> in_recv{0}; int got = 0; uint64_t val = 0; bool second = true; };
+static vh::NamedCounter c_rounds("try_send_then_close_rounds"), c_sent("try_send_then_close_values_accepted");
+static void* receiver(void* a) {
+    auto& c = *(Ctl*)a;
+    uint64_t v = ~0ull;
+    c.in_recv.store(1, vh::MO);
+    bool ok = c.timed ? c.ch->recv(v, photon::Timeout(2 * 1000 * 1000)) : c.ch->recv(v);
+    c.got = ok; c.val = v;
+    uint64_t w = 0;
+    c.second = c.timed ? c.ch->recv(w, photon::Timeout(2 * 1000 * 1000)) : c.ch->recv(w);
+    vh::event(); vh::progress();
+    return nullptr;
+}
+static int run(vh::Rng& r) {
+    uint64_t rounds = vh::args().thorough() ? 2000 : 400;
+    vh::config("cls", "try_send-then-close"); vh::config("vcpus", 1);
+    photon::vcpu_init();
+    vh::start_supervisor([](std::string& k, std::string& w, std::string&) { k = "chan-try_send-close"; w = "scripted round made no progress"; return false; });
+    for (uint64_t rd = 0; rd < rounds; ++rd) {
+        size_t cap = r.pick<size_t>({0, 0, 0, 1, 4});
+        Ctl c; c.ch = new photon::channel<uint64_t>(cap); c.timed = r.chance(1, 2);
+        auto th = photon::thread_create(receiver, &c, 128 * 1024);
+        auto jh = photon::thread_enable_join(th);
+        while (!c.in_recv.load(vh::MO) || photon::thread_stat(th) != photon::SLEEPING) photon::thread_yield();
+        uint64_t v = 1000 + rd;
+        bool sent = c.ch->try_send(v);
+        int between = r.below(3);               // 0: close at once; 1: one yield first (the receiver takes the value); 2: short sleep first
+        if (between == 1) photon::thread_yield(); else if (between == 2) photon::thread_usleep(50);
+        c.ch->close();
+        photon::thread_join(jh);
+        std::string tag = std::string(cap ? "buffered" : "unbuffered") + (c.timed ? ":timed-recv" : ":untimed-recv");
+        if (sent) {
+            c_sent.add();
+            if (!c.got || c.val != v)
+                vh::violation("close/value-accepted-by-try_send-not-delivered:" + tag,
+                              "try_send() returned true while a receiver was blocked, the channel was closed next, and the receiver did not get the value",
+                              vh::JObj().kv("recv_returned", c.got).kv("value", c.val).kv("expected", v).kv("scheduling_before_close", between).str());
+            else if (c.second)
+                vh::violation("close/recv-true-on-closed-empty-channel:" + tag, "a second recv() on the closed, drained channel returned true", "null");
+        } else if (c.got)
+            vh::violation("close/value-from-nowhere:" + tag, "recv() returned a value although the only try_send() had returned false", "null");
+        delete c.ch;
+        c_rounds.add();
+    }
+    photon::vcpu_fini();
+    vh::set_sig("tsclose", c_sent.get() > 0);
+    vh::sample(vh::JObj().kv("cls", "try_send-then-close").kv("rounds", c_rounds.get()).kv("values_accepted", c_sent.get()).str());
+    return vh::finish();
+}
+}  // namespace tsclose
+
 int main(int argc, char** argv) {
     vh::init(argc, argv);
+    {
+        auto& A0 = vh::args();
+        if (A0.has("cls") ? A0.gets("cls", "") == "tsclose" : (A0.exec % 16 == 13)) {
+            vh::Rng r0(A0.xseed());
+            return tsclose::run(r0);
+        }
+    }
     {
         auto& A0 = vh::args();
         if (A0.has("cls") ? A0.gets("cls", "") == "fanout" : (A0.exec % 16 == 5)) {
